@@ -9,6 +9,8 @@ CONSTANTS
   MaxCondAtoms = 1
   Bug = "none"
   Fixed = {}
+  EmitMod = 1
+  EmitRes = 0
 INVARIANT ArgumentKindsFollowSpec
 INVARIANT EvalFollowsSpec
 INVARIANT EmitDone
